@@ -29,7 +29,7 @@ vars == <<mode, i, q, s, tag>>
 Failed(obs) == {o[1] : o \in {p \in obs : ~p[2]}}
 Report(n, bad) == IF bad = {} THEN TRUE ELSE PrintT(<<"VIOL", n, bad>>)
 
-HasGraph(c) == c.op \in {"dgraph", "automaton"}
+HasGraph(c) == c.op \in {"dgraph", "dgraph3", "automaton"}
 RepSet(c) == {c.reps[j] : j \in 1..Len(c.reps)}
 NNodes(c) == Len(c.final)
 
@@ -51,6 +51,46 @@ Covered(rs, D) == \A x \in D : \E a \in 1..Len(rs) : Mem(rs[a], x)
 StateOk(c, st) == /\ Sorted(st.ranges)
                   /\ Covered(st.ranges, RepSet(c)) \/ st.default
 
+(* ---- C03: derivative classes of a node (DESIGN 5 C03 c-f) ---- *)
+InClass(cl, cid, x) == IF cid >= 0 THEN cid < Len(cl.ranges) /\ Mem(cl.ranges[cid + 1], x)
+                       ELSE \A a \in 1..Len(cl.ranges) : ~Mem(cl.ranges[a], x)
+Disjoint(rs) == \A a, b \in 1..Len(rs) : a # b => (rs[a][2] < rs[b][1] \/ rs[b][2] < rs[a][1])
+\* characters that decide where the set [a,b] lies: a itself and every range boundary inside it
+SetD(cl, a, b) == {x \in {a} \cup {cl.ranges[k][1] : k \in 1..Len(cl.ranges)}
+                                 \cup {cl.ranges[k][2] + 1 : k \in 1..Len(cl.ranges)} : a <= x /\ x <= b}
+SetInOneClass(cl, a, b) ==
+  LET D == SetD(cl, a, b) IN
+  \/ \E k \in 1..Len(cl.ranges) : \A x \in D : Mem(cl.ranges[k], x)
+  \/ \A x \in D : \A k \in 1..Len(cl.ranges) : ~Mem(cl.ranges[k], x)
+ClassOk(c, cl) ==
+  LET nr == Len(cl.ranges)
+      covered == Covered(cl.ranges, RepSet(c))
+      ids == {cl.ids[j] : j \in 1..Len(cl.ids)}
+  IN Failed({
+     <<"C03:classes_are_disjoint_intervals",
+        Disjoint(cl.ranges) /\ \A a \in 1..nr : cl.ranges[a][1] <= cl.ranges[a][2] /\ cl.ranges[a][2] <= MaxChar>>,
+     <<"C03:class_ids_cover_alphabet",
+        /\ ids = {k - 1 : k \in 1..nr} \cup (IF covered THEN {} ELSE {-1})
+        /\ Len(cl.ids) = Cardinality(ids)
+        /\ cl.empty_complement = covered /\ cl.nclasses = nr>>,
+     <<"C03:class_derivative_of_valid_id", \A j \in 1..Len(cl.cderiv) : cl.cderiv[j].res = "ok" /\ cl.cderiv[j].s \in 1..NNodes(c)>>,
+     <<"C03:bad_class_id", \A j \in 1..Len(cl.bad) : cl.bad[j].res = "err:BadClassId" /\ ~cl.bad[j].valid>>,
+     <<"C18:start_class_bad_class_id", \A j \in 1..Len(cl.bad) : cl.bad[j].start_class = "err:BadClassId">>,
+     <<"C03:set_derivative_defined_iff_one_class",
+        \A j \in 1..Len(cl.setd) :
+           LET sd == cl.setd[j] IN
+           IF SetInOneClass(cl, sd.a, sd.b) THEN sd.res = "ok" /\ sd.s \in 1..NNodes(c)
+           ELSE sd.res \notin {"ok", "panic"}>>})
+ClassRoots(c, cl) ==       \* class_derivative(e, cid) must be the quotient by EVERY character of the class
+  UNION {{[w |-> cl.path \o <<x>>, s |-> cl.cderiv[j].s, tag |-> "C03:class_derivative"] :
+             x \in {y \in RepSet(c) : InClass(cl, cl.cderiv[j].cid, y)}} :
+         j \in {j \in 1..Len(cl.cderiv) : cl.cderiv[j].res = "ok" /\ cl.cderiv[j].s \in 1..NNodes(c)}}
+SetRoots(c, cl) ==
+  UNION {{[w |-> cl.path \o <<cl.setd[j].a>>, s |-> cl.setd[j].s, tag |-> "C03:set_derivative"],
+          [w |-> cl.path \o <<cl.setd[j].b>>, s |-> cl.setd[j].s, tag |-> "C03:set_derivative"]} :
+         j \in {j \in 1..Len(cl.setd) : cl.setd[j].res = "ok" /\ cl.setd[j].s \in 1..NNodes(c)
+                                          /\ SetInOneClass(cl, cl.setd[j].a, cl.setd[j].b)}}
+
 Bad(n) ==
   LET c == Rec[n] IN
   CASE c.op = "panic"   -> {c.where}
@@ -59,6 +99,11 @@ Bad(n) ==
          Failed({<<"harness:reps_cover_ast", TermReps(Ast[n]) \subseteq RepSet(c)>>,
                  <<"C01:graph_wellformed", GraphOk(c, n) /\ ~c.capped>>,
                  <<"C01:nullable", c.nullable = Nullable(Ast[n])>>})
+    [] c.op = "dgraph3" ->
+         Failed({<<"harness:reps_cover_ast", TermReps(Ast[n]) \subseteq RepSet(c)>>,
+                 <<"C03:graph_wellformed", GraphOk(c, n) /\ ~c.capped>>,
+                 <<"C03:str_derivative_in_closure", \A r \in 1..Len(c.roots) : c.roots[r].s # 0>>})
+         \cup UNION {ClassOk(c, c.cls[j]) : j \in 1..Len(c.cls)}
     [] c.op = "automaton" ->
          Failed({<<"harness:reps_cover_ast", TermReps(Ast[n]) \subseteq RepSet(c)>>,
                  <<"C02:next_total", GraphOk(c, n)>>,
@@ -79,8 +124,17 @@ Bad(n) ==
                            (end # 0 /\ c.runs[r].to = end /\ c.runs[r].acc = c.final[end])>>})
     [] OTHER -> {"unknown_event"}
 
+GraphOk0(c) ==         \* edges well-formed (roots may be missing: reported separately)
+  /\ Len(c.delta) = NNodes(c)
+  /\ \A a \in 1..NNodes(c) : /\ Len(c.delta[a]) = Len(c.reps)
+                             /\ \A j \in 1..Len(c.reps) : c.delta[a][j] \in 1..NNodes(c)
 Roots(n) == LET c == Rec[n] IN
-            IF HasGraph(c) /\ GraphOk(c, n) THEN {c.roots[r] : r \in 1..Len(c.roots)} ELSE {}
+            IF HasGraph(c) /\ GraphOk0(c)
+            THEN {c.roots[r] : r \in {r \in 1..Len(c.roots) : c.roots[r].s \in 1..NNodes(c)}}
+                 \cup (IF c.op = "dgraph3"
+                       THEN UNION {ClassRoots(c, c.cls[j]) \cup SetRoots(c, c.cls[j]) : j \in 1..Len(c.cls)}
+                       ELSE {})
+            ELSE {}
 
 Init == mode = "load" /\ i \in 1..(IF N < K THEN N ELSE K) /\ q = 0 /\ s = 0 /\ tag = ""
 
